@@ -27,145 +27,115 @@ Proof.
   apply andb_prop in H as [Hx Hl]. rewrite (HP _ Hx), (IH Hl). reflexivity.
 Qed.
 
-(* ---------- split_on *)
-Lemma split_on_nosep c x : has_byte c x = false -> split_on c x = [x].
-Proof.
-  induction x as [|a x IH]; simpl; intros H; auto.
-  apply orb_false_elim in H as [Ha Hx].
-  rewrite (eqb_false_sym _ _ Ha). rewrite (IH Hx). reflexivity.
-Qed.
-
-Lemma split_on_app c x rest :
-  has_byte c x = false -> split_on c (x ++ c :: rest) = x :: split_on c rest.
-Proof.
-  induction x as [|a x IH]; simpl; intros H.
-  - rewrite Ascii.eqb_refl. reflexivity.
-  - apply orb_false_elim in H as [Ha Hx].
-    rewrite (eqb_false_sym _ _ Ha). rewrite (IH Hx). reflexivity.
-Qed.
-
-Lemma split_join c parts :
-  parts <> [] -> Forall (fun p => has_byte c p = false) parts ->
-  split_on c (join [c] parts) = parts.
-Proof.
-  induction parts as [|p r IH]; intros Hne HF; [congruence|].
-  inversion HF as [|? ? Hp Hr]; subst.
-  destruct r as [|q r'].
-  - simpl. apply split_on_nosep; auto.
-  - change (join [c] (p :: q :: r')) with (p ++ [c] ++ join [c] (q :: r')).
-    simpl app. rewrite split_on_app by auto. f_equal. apply IH; [congruence|auto].
-Qed.
-
-(* ---------- trimming *)
-Lemma trim_left_app a b :
-  trim_left (a ++ b) = if forallb is_space a then trim_left b else trim_left a ++ b.
-Proof.
-  induction a as [|c a IH]; simpl; auto.
-  destruct (is_space c); simpl; auto.
-Qed.
-
-Lemma trim_left_allspace a : forallb is_space a = true -> trim_left a = [].
-Proof.
-  induction a as [|c a IH]; simpl; auto.
-  intros H. apply andb_prop in H as [Hc Ha]. rewrite Hc. auto.
-Qed.
-
-Lemma trim_left_suffix s : exists w, s = w ++ trim_left s.
-Proof.
-  induction s as [|c s [w IH]]; simpl.
-  - exists []. reflexivity.
-  - destruct (is_space c).
-    + exists (c :: w). simpl. f_equal. exact IH.
-    + exists []. reflexivity.
-Qed.
-
-Lemma trim_right_prefix s : exists w, s = trim_right s ++ w.
-Proof.
-  unfold trim_right. destruct (trim_left_suffix (rev s)) as [w Hw].
-  exists (rev w). rewrite <- rev_app_distr, <- Hw, rev_involutive. reflexivity.
-Qed.
-
-Definition nospace (u : bytes) : bool := forallb (fun x => negb (is_space x)) u.
-
-Lemma trim_left_nospace u rest : u <> [] -> nospace u = true -> trim_left (u ++ rest) = u ++ rest.
-Proof.
-  destruct u as [|c u]; [congruence|]. simpl. intros _ H.
-  apply andb_prop in H as [Hc _]. destruct (is_space c); simpl in Hc; [discriminate|reflexivity].
-Qed.
-
-Lemma trim_right_nospace u rest :
-  u <> [] -> nospace u = true -> trim_right (u ++ rest) = u ++ trim_right rest.
-Proof.
-  intros Hne Hu. unfold trim_right. rewrite rev_app_distr, trim_left_app.
-  destruct (forallb is_space (rev rest)) eqn:Hs.
-  - rewrite (trim_left_allspace _ Hs). simpl. rewrite app_nil_r.
-    assert (Hr : rev u <> []) by (intros E; apply Hne; rewrite <- (rev_involutive u), E; reflexivity).
-    assert (Hn : nospace (rev u) = true) by (unfold nospace in *; rewrite forallb_rev; exact Hu).
-    pose proof (trim_left_nospace (rev u) [] Hr Hn) as T. rewrite !app_nil_r in T.
-    rewrite T, rev_involutive. reflexivity.
-  - rewrite rev_app_distr, rev_involutive. reflexivity.
-Qed.
-
 (* ---------- srcset *)
-Lemma first_token_url u r :
-  has_byte " " u = false -> (r = [] \/ exists x, r = " " :: x) -> first_token (u ++ r) = u.
+Lemma ss_skip_pre p s : forallb is_hspace p = true -> ss_scan SSkip (p ++ s) = ss_scan SSkip s.
 Proof.
-  intros Hu [->|[x ->]]; unfold first_token.
-  - rewrite app_nil_r, split_on_nosep by auto. reflexivity.
-  - rewrite split_on_app by auto. reflexivity.
+  induction p as [|c p IH]; intros H; [reflexivity|].
+  cbn [forallb] in H. apply andb_prop in H as [Hc Hp].
+  cbn [app ss_scan]. rewrite Hc. cbn [orb]. auto.
 Qed.
 
-Lemma nospace_no_sp u : nospace u = true -> has_byte " " u = false.
+Lemma ss_url_acc u acc s :
+  forallb (fun x => negb (is_hspace x)) u = true ->
+  ss_scan (SUrl acc) (u ++ s) = ss_scan (SUrl (rev u ++ acc)) s.
 Proof.
-  unfold nospace, has_byte. induction u as [|c u IH]; simpl; auto.
-  intros H. apply andb_prop in H as [Hc Hu]. rewrite (IH Hu), orb_false_r.
-  destruct (Ascii.eqb " " c) eqn:E; auto.
-  apply Ascii.eqb_eq in E. subst c. discriminate.
+  revert acc. induction u as [|c u IH]; intros acc H; [reflexivity|].
+  cbn [forallb] in H. apply andb_prop in H as [Hc Hu]. apply negb_true_iff in Hc.
+  cbn [app ss_scan]. rewrite Hc. rewrite IH by exact Hu.
+  cbn [rev]. rewrite <- app_assoc. reflexivity.
 Qed.
 
-Lemma cand_token (c : scand) :
-  wf_cand c = true -> first_token (trim_space (render_cand c)) = sc_url c.
+Lemma ss_desc d s : has_byte "," d = false -> ss_scan SDesc (d ++ s) = ss_scan SDesc s.
 Proof.
-  unfold wf_cand, render_cand. intros H.
-  apply andb_prop in H as [H Hrest]. apply andb_prop in H as [H Hcomma].
-  apply andb_prop in H as [H Hu]. apply andb_prop in H as [Hpre Hne].
-  assert (Hne' : sc_url c <> []) by (destruct (sc_url c); [discriminate|congruence]).
-  assert (Hns : nospace (sc_url c) = true).
-  { unfold nospace. clear -Hu. induction (sc_url c) as [|x u IH]; simpl in *; auto.
-    apply andb_prop in Hu as [Hx Hu]. apply andb_prop in Hx as [Hx _]. rewrite Hx. auto. }
-  unfold trim_space. rewrite trim_left_app, Hpre.
-  rewrite trim_left_nospace, trim_right_nospace by auto.
-  apply first_token_url; [apply nospace_no_sp; auto|].
-  destruct (trim_right_prefix (sc_rest c)) as [w Hw].
-  destruct (trim_right (sc_rest c)) as [|y t] eqn:E; [left; reflexivity|right].
-  rewrite Hw in Hrest. simpl in Hrest. apply Ascii.eqb_eq in Hrest. subst y. eauto.
+  induction d as [|c d IH]; intros H; [reflexivity|].
+  unfold has_byte in H. cbn [existsb] in H. apply orb_false_elim in H as [Hc Hd].
+  cbn [app ss_scan]. rewrite (eqb_false_sym _ _ Hc). apply IH. exact Hd.
 Qed.
 
-Lemma cand_nocomma (c : scand) : wf_cand c = true -> has_byte "," (render_cand c) = false.
+Lemma drop_commas_id a : ends_comma a = false -> drop_commas a = a.
+Proof. destruct a as [|c a]; [reflexivity|]. cbn [ends_comma drop_commas]. intros ->. reflexivity. Qed.
+
+Lemma render_srcset_cons c c2 r :
+  render_srcset (c :: c2 :: r) = render_cand c ++ "," :: render_srcset (c2 :: r).
+Proof. reflexivity. Qed.
+
+Lemma hspace_not_comma w : is_hspace w = true -> Ascii.eqb w "," = false.
 Proof.
-  unfold wf_cand, render_cand. intros H.
-  apply andb_prop in H as [H _]. apply andb_prop in H as [H H2].
-  apply andb_prop in H as [H H1]. apply andb_prop in H as [H _].
-  rewrite !has_byte_app.
-  apply negb_true_iff in H2. rewrite H2, orb_false_r.
-  apply orb_false_intro.
-  - apply (has_byte_forallb _ _ _ H). intros x Hx.
-    destruct (Ascii.eqb "," x) eqn:E; auto. apply Ascii.eqb_eq in E. subst x. discriminate.
-  - apply (has_byte_forallb _ _ _ H1). intros x Hx. apply andb_prop in Hx as [_ Hx].
-    rewrite Ascii.eqb_sym. apply negb_true_iff. exact Hx.
+  intros H. destruct (Ascii.eqb w ",") eqn:E; [|reflexivity].
+  apply Ascii.eqb_eq in E. subst w. discriminate.
+Qed.
+
+(* the splitter returns exactly the candidate URLs of a well-formed value *)
+Lemma srcset_exact (cs : list scand) :
+  wf_cands cs = true -> srcset_urls (render_srcset cs) = map sc_url cs.
+Proof.
+  unfold srcset_urls. induction cs as [|c r IH]; intros H; [reflexivity|].
+  cbn [wf_cands] in H. apply andb_prop in H as [H Hadj]. apply andb_prop in H as [Hc Hr].
+  specialize (IH Hr).
+  unfold wf_cand in Hc.
+  apply andb_prop in Hc as [Hc Hrest]. apply andb_prop in Hc as [Hc Hnc].
+  apply andb_prop in Hc as [Hc Hend]. apply andb_prop in Hc as [Hc Hu]. apply andb_prop in Hc as [Hpre Hx].
+  apply negb_true_iff in Hend, Hnc.
+  destruct (sc_url c) as [|x u] eqn:Eu; [discriminate|].
+  apply negb_true_iff in Hx.
+  cbn [forallb] in Hu. apply andb_prop in Hu as [Hxs Hu]. apply negb_true_iff in Hxs.
+  (* the state after pre and URL *)
+  assert (Hhead : forall tail,
+    ss_scan SSkip (render_cand c ++ tail) = ss_scan (SUrl (rev (x :: u))) (sc_rest c ++ tail)).
+  { intros tail. unfold render_cand. rewrite <- !app_assoc, ss_skip_pre by exact Hpre.
+    rewrite Eu. cbn [app ss_scan]. rewrite Hxs, Hx. cbn [orb].
+    rewrite ss_url_acc by exact Hu. reflexivity. }
+  assert (Hdrop : rev (drop_commas (rev (x :: u))) = x :: u).
+  { rewrite drop_commas_id by exact Hend. apply rev_involutive. }
+  cbn [map]. rewrite Eu. destruct r as [|c2 r'].
+  - (* last candidate *)
+    change (render_srcset [c]) with (render_cand c).
+    rewrite <- (app_nil_r (render_cand c)), Hhead, app_nil_r.
+    destruct (sc_rest c) as [|w d] eqn:Er.
+    + cbn [ss_scan]. rewrite Hdrop. reflexivity.
+    + cbn [ss_scan]. rewrite Hrest, Hdrop, Hend. f_equal.
+      unfold has_byte in Hnc. cbn [existsb] in Hnc. apply orb_false_elim in Hnc as [_ Hd].
+      rewrite <- (app_nil_r d), ss_desc by exact Hd. reflexivity.
+  - rewrite render_srcset_cons, Hhead.
+    destruct (sc_rest c) as [|w d] eqn:Er.
+    + (* no descriptor: the comma joins the URL, white space must follow *)
+      destruct (sc_pre c2) as [|w2 p2] eqn:Ep; [discriminate|].
+      assert (Hw2 : is_hspace w2 = true).
+      { cbn [wf_cands] in Hr. apply andb_prop in Hr as [Hr _]. apply andb_prop in Hr as [Hc2 _].
+        unfold wf_cand in Hc2. repeat (apply andb_prop in Hc2 as [Hc2 _]).
+        rewrite Ep in Hc2. cbn [forallb] in Hc2. apply andb_prop in Hc2 as [Hc2 _]. exact Hc2. }
+      assert (Hshape : exists X, render_srcset (c2 :: r') = w2 :: X).
+      { destruct r' as [|c3 r''].
+        - exists (p2 ++ sc_url c2 ++ sc_rest c2). cbn. unfold render_cand. rewrite Ep. reflexivity.
+        - exists (p2 ++ sc_url c2 ++ sc_rest c2 ++ "," :: render_srcset (c3 :: r'')).
+          rewrite render_srcset_cons. unfold render_cand. rewrite Ep, <- !app_assoc. reflexivity. }
+      destruct Hshape as [X HX]. rewrite HX in IH |- *.
+      cbn [app ss_scan]. cbn [ss_scan] in IH. rewrite Hw2 in IH. cbn [orb] in IH.
+      assert (is_hspace "," = false) as -> by reflexivity.
+      cbn [ss_scan]. rewrite Hw2.
+      assert (drop_commas ("," :: rev (x :: u)) = drop_commas (rev (x :: u))) as -> by reflexivity.
+      rewrite Hdrop. cbn [ends_comma]. rewrite Ascii.eqb_refl. f_equal. exact IH.
+    + cbn [app ss_scan]. rewrite Hrest, Hdrop, Hend. f_equal.
+      unfold has_byte in Hnc. cbn [existsb] in Hnc. apply orb_false_elim in Hnc as [_ Hd].
+      rewrite ss_desc by exact Hd. cbn [ss_scan]. rewrite Ascii.eqb_refl. exact IH.
 Qed.
 
 Lemma srcset_split_complete_lemma : forall (cs : list scand) (c : scand),
-  Forall (fun x => wf_cand x = true) cs -> In c cs ->
-  In (sc_url c) (srcset_urls (render_srcset cs)).
+  wf_cands cs = true -> In c cs -> In (sc_url c) (srcset_urls (render_srcset cs)).
+Proof. intros cs c H Hin. rewrite srcset_exact by exact H. apply in_map. exact Hin. Qed.
+
+(* ---------- trimming *)
+Lemma trim_left_hd s :
+  match s with [] => true | x :: _ => negb (is_space x) end = true -> trim_left s = s.
+Proof. destruct s as [|x s]; [reflexivity|]. cbn [trim_left]. intros H. apply negb_true_iff in H. rewrite H. reflexivity. Qed.
+
+Lemma trimq_left_hd s :
+  match s with [] => true | x :: _ => negb (is_quote x) end = true -> trimq_left s = s.
+Proof. destruct s as [|x s]; [reflexivity|]. cbn [trimq_left]. intros H. apply negb_true_iff in H. rewrite H. reflexivity. Qed.
+
+Lemma quote_not_space c : is_quote c = true -> is_space c = false.
 Proof.
-  intros cs c HF Hin. unfold srcset_urls, render_srcset.
-  rewrite split_join.
-  - rewrite map_map. apply in_map_iff. exists c. split; auto.
-    apply cand_token. rewrite Forall_forall in HF. auto.
-  - destruct cs; [contradiction|discriminate].
-  - rewrite Forall_forall in *. intros p Hp. apply in_map_iff in Hp as [x [<- Hx]].
-    apply cand_nocomma. auto.
+  unfold is_quote. intros H. apply orb_prop in H as [H|H]; apply Ascii.eqb_eq in H; subst c; reflexivity.
 Qed.
 
 (* ---------- the style-element scanner *)
@@ -213,8 +183,6 @@ Proof.
   apply IH. eapply containsb_tail; eauto.
 Qed.
 
-Definition cap_char (c : ascii) : bool := negb (Ascii.eqb c ")") && negb (Ascii.eqb c nl).
-
 Lemma css_scan_cap w acc rest :
   forallb cap_char w = true ->
   css_scan (UCap acc) (w ++ ")" :: rest) = (rev acc ++ w) :: css_scan UIdle rest.
@@ -251,10 +219,13 @@ Proof.
   apply andb_prop in Hc as [Hc _]. exact Hc.
 Qed.
 
+Lemma css_body_cap u : css_body_ok u = true -> forallb cap_char u = true.
+Proof. unfold css_body_ok. intros H. apply andb_prop in H as [H _]. apply andb_prop in H as [H _]. exact H. Qed.
+
 Lemma tok_cap (t : ctok) : wf_ctok t = true -> forallb cap_char (ct_q t ++ ct_url t ++ ct_q t) = true.
 Proof.
   unfold wf_ctok. intros H. apply andb_prop in H as [H H1]. apply andb_prop in H as [_ H0].
-  rewrite !forallb_app, (quote_cap _ H0), (body_cap _ H1). reflexivity.
+  rewrite !forallb_app, (quote_cap _ H0), (css_body_cap _ H1). reflexivity.
 Qed.
 
 Lemma css_scan_complete toks tail :
@@ -276,37 +247,44 @@ Proof.
   simpl. f_equal. apply IH. exact Hr.
 Qed.
 
-Lemma strip_quotes_tok q u :
-  quote_ok q = true -> url_body_ok u = true -> strip_quotes (q ++ u ++ q) = u.
+Lemma css_rewrite_tok q u :
+  quote_ok q = true -> css_body_ok u = true -> css_rewrite (q ++ u ++ q) = u.
 Proof.
-  intros Hq Hu. unfold strip_quotes. rewrite !filter_app.
-  assert (Hq' : filter (fun c => negb (is_quote c)) q = []).
-  { destruct q as [|c [|]]; simpl in *; try discriminate; auto. rewrite Hq. reflexivity. }
-  rewrite Hq', app_nil_r. simpl.
-  unfold url_body_ok in Hu. induction u as [|c u IH]; simpl in *; auto.
-  apply andb_prop in Hu as [Hc Hu]. apply andb_prop in Hc as [_ Hc]. rewrite Hc. f_equal. auto.
-Qed.
-
-Lemma slashslash_id u : containsb (bs "//") u = false -> slashslash u = u.
-Proof.
-  induction u as [|c u IH]; intros H; [reflexivity|].
-  cbn [containsb] in H. apply orb_false_elim in H as [Hp Hr].
-  cbn [slashslash]. destruct (Ascii.eqb c "/") eqn:E1.
-  - destruct u as [|d u']; [reflexivity|].
-    destruct (Ascii.eqb d "/") eqn:E2.
-    + apply Ascii.eqb_eq in E1, E2. subst. discriminate.
-    + f_equal. apply IH. exact Hr.
-  - f_equal. apply IH. exact Hr.
-Qed.
-
-Lemma css_rewrite_kept q u :
-  quote_ok q = true -> url_body_ok u = true -> css_kept u = true ->
-  css_rewrite (q ++ u ++ q) = u.
-Proof.
-  intros Hq Hu Hk. unfold css_rewrite. rewrite strip_quotes_tok by auto.
-  unfold css_kept in Hk. apply andb_prop in Hk as [Hk _].
-  destruct (containsb (bs "http") u); [reflexivity|].
-  simpl in Hk. apply slashslash_id. apply negb_true_iff. exact Hk.
+  intros Hq Hu. unfold css_body_ok in Hu.
+  apply andb_prop in Hu as [Hu Hlast]. apply andb_prop in Hu as [_ Hfirst].
+  unfold css_rewrite, trim_space, trim_right, trim_quotes.
+  destruct q as [|c [|]]; cbn [quote_ok] in Hq; try discriminate.
+  - (* unquoted *)
+    cbn [app]. rewrite app_nil_r.
+    assert (Hs1 : match u with [] => true | x :: _ => negb (is_space x) end = true).
+    { destruct u; auto. unfold edge_char in Hfirst. apply andb_prop in Hfirst as [_ H]. exact H. }
+    assert (Hs2 : match rev u with [] => true | x :: _ => negb (is_space x) end = true).
+    { destruct (rev u); auto. unfold edge_char in Hlast. apply andb_prop in Hlast as [_ H]. exact H. }
+    assert (Hq1 : match u with [] => true | x :: _ => negb (is_quote x) end = true).
+    { destruct u; auto. unfold edge_char in Hfirst. apply andb_prop in Hfirst as [H _]. exact H. }
+    assert (Hq2 : match rev u with [] => true | x :: _ => negb (is_quote x) end = true).
+    { destruct (rev u); auto. unfold edge_char in Hlast. apply andb_prop in Hlast as [H _]. exact H. }
+    rewrite (trim_left_hd u Hs1), (trim_left_hd _ Hs2), rev_involutive.
+    rewrite (trimq_left_hd u Hq1), (trimq_left_hd _ Hq2). apply rev_involutive.
+  - (* quoted *)
+    pose proof (quote_not_space _ Hq) as Hsp.
+    cbn [app trim_left]. rewrite Hsp.
+    assert (Hrev : rev (c :: u ++ [c]) = c :: rev u ++ [c]).
+    { cbn [rev]. rewrite rev_app_distr. reflexivity. }
+    rewrite Hrev. cbn [trim_left]. rewrite Hsp.
+    rewrite <- Hrev, rev_involutive.
+    cbn [trimq_left]. rewrite Hq.
+    destruct u as [|x u'].
+    + cbn. rewrite Hq. reflexivity.
+    + assert (Hx : is_quote x = false).
+      { unfold edge_char in Hfirst. apply andb_prop in Hfirst as [H _]. apply negb_true_iff. exact H. }
+      cbn [app trimq_left]. rewrite Hx.
+      change (x :: u' ++ [c]) with ((x :: u') ++ [c]).
+      rewrite rev_app_distr. cbn [rev app trimq_left]. rewrite Hq.
+      assert (Hq2 : match rev u' ++ [x] with [] => true | y :: _ => negb (is_quote y) end = true).
+      { cbn [rev] in Hlast. destruct (rev u' ++ [x]); auto.
+        unfold edge_char in Hlast. apply andb_prop in Hlast as [H _]. exact H. }
+      rewrite (trimq_left_hd _ Hq2). rewrite rev_app_distr, rev_involutive. reflexivity.
 Qed.
 
 Lemma css_urls_complete_lemma : forall (d : list ctok * bytes) (t : ctok),
@@ -321,8 +299,8 @@ Proof.
     exists t. split; auto.
     assert (Hw : wf_ctok t = true) by (rewrite forallb_forall in Ht; auto).
     unfold wf_ctok in Hw. apply andb_prop in Hw as [Hw Hb]. apply andb_prop in Hw as [_ Hq].
-    apply css_rewrite_kept; auto.
-  - unfold css_kept in Hk. apply andb_prop in Hk as [_ Hk]. exact Hk.
+    apply css_rewrite_tok; auto.
+  - exact Hk.
 Qed.
 
 (* exactly the tokens, nothing else, come out of a well-formed style text *)
@@ -443,17 +421,21 @@ Proof.
   - rewrite Hk. reflexivity.
 Qed.
 
-(* ---------- non-vacuity and the witnesses of the named exclusions *)
+(* ---------- non-vacuity and the witnesses *)
 Example srcset_nonvacuous :
-  let cs := [SCand [] (bs "/a.png") (bs " 1x"); SCand (bs " ") (bs "http://c.example/b.png") (bs "  640w ");
-             SCand (bs " ") (bs "c.png") []] in
-  Forall (fun x => wf_cand x = true) cs
-  /\ srcset_urls (render_srcset cs) = [bs "/a.png"; bs "http://c.example/b.png"; bs "c.png"].
-Proof. split; [repeat constructor|vm_compute; reflexivity]. Qed.
+  let cs := [SCand [] (bs "/cdn-cgi/image/width=80,quality=75/a.png") (bs " 1x");
+             SCand (bs " ") (bs "http://c.example/b.png") ("009" :: bs "640w ");
+             SCand [nl; " "] (bs "c.png") []; SCand (bs " ") (bs "d.png") []] in
+  wf_cands cs = true
+  /\ srcset_urls (render_srcset cs)
+     = [bs "/cdn-cgi/image/width=80,quality=75/a.png"; bs "http://c.example/b.png"; bs "c.png"; bs "d.png"].
+Proof. vm_compute. split; reflexivity. Qed.
 
 Example css_nonvacuous :
-  let d := ([CTok (bs "a{background:") (bs "'") (bs "/i/x.png"); CTok (bs " rgb(1,2,3) ") [] (bs "y.png")], bs "}") in
-  wf_css d = true /\ css_urls (render_css d) = [bs "/i/x.png"; bs "y.png"].
+  let d := ([CTok (bs "a{background:") (bs "'") (bs "/i/x.png"); CTok (bs " rgb(1,2,3) ") [] (bs "y.png");
+             CTok (bs ";b:") (bs """") (bs "/img/o'brien.png"); CTok (bs ";c:") [] (bs "//cdn.example.net/x//y.png")], bs "}") in
+  wf_css d = true
+  /\ css_urls (render_css d) = [bs "/i/x.png"; bs "y.png"; bs "/img/o'brien.png"; bs "//cdn.example.net/x//y.png"].
 Proof. vm_compute. split; reflexivity. Qed.
 
 Example sty_nonvacuous :
@@ -461,25 +443,7 @@ Example sty_nonvacuous :
   wf_sty d = true /\ style_attr_urls (render_sty d) = [bs "/i/x.png"].
 Proof. vm_compute. split; reflexivity. Qed.
 
-(* a comma inside a candidate URL (allowed by HTML) breaks the candidate *)
-Lemma srcset_comma_refuted :
-  exists cs c, In c cs /\ ~ In (sc_url c) (srcset_urls (render_srcset cs)).
-Proof.
-  exists [SCand [] (bs "/cdn-cgi/image/width=80,quality=75/x.png") (bs " 1x")].
-  eexists. split; [left; reflexivity|].
-  vm_compute. intros [H|[H|[]]]; discriminate.
-Qed.
-
-(* a tab between URL and descriptor (allowed by HTML) glues them together *)
-Lemma srcset_tab_refuted :
-  exists cs c, In c cs /\ ~ In (sc_url c) (srcset_urls (render_srcset cs)).
-Proof.
-  exists [SCand [] (bs "a.png") ["009"; "2"; "x"]].
-  eexists. split; [left; reflexivity|].
-  vm_compute. intros [H|[]]; discriminate.
-Qed.
-
-(* style attribute: a URL with a percent escape is skipped *)
+(* style attribute: a URL with a percent escape is skipped (the exclusion that remains) *)
 Lemma style_attr_percent_refuted :
   exists d t, wf_sty d = true /\ In t (fst d) /\ ~ In (st_body t) (style_attr_urls (render_sty d)).
 Proof.
@@ -488,9 +452,39 @@ Proof.
   vm_compute. intros [].
 Qed.
 
-(* style element: a scheme-relative URL comes out with the scheme http, whatever the page's is,
-   and an empty path segment is turned into a scheme *)
-Lemma css_slashslash_refuted :
-  css_urls (bs "a{background:url(//cdn.example.net/x.png)}") = [bs "http://cdn.example.net/x.png"]
-  /\ css_urls (bs "a{background:url(/x//y.png)}") = [bs "/xhttp://y.png"].
-Proof. vm_compute. split; reflexivity. Qed.
+(* ---------- the code as found (before the C07 repairs) *)
+
+(* a comma inside a candidate URL (allowed by HTML) broke the candidate *)
+Lemma srcset_comma_orig_refuted :
+  exists cs c, wf_cands cs = true /\ In c cs
+               /\ ~ In (sc_url c) (srcset_urls_orig (render_srcset cs))
+               /\ In (sc_url c) (srcset_urls (render_srcset cs)).
+Proof.
+  exists [SCand [] (bs "/cdn-cgi/image/width=80,quality=75/x.png") (bs " 1x")].
+  eexists. split; [reflexivity|]. split; [left; reflexivity|]. split.
+  - vm_compute. intros [H|[H|[]]]; discriminate.
+  - vm_compute. left. reflexivity.
+Qed.
+
+(* a tab between URL and descriptor (allowed by HTML) glued them together *)
+Lemma srcset_tab_orig_refuted :
+  exists cs c, wf_cands cs = true /\ In c cs
+               /\ ~ In (sc_url c) (srcset_urls_orig (render_srcset cs))
+               /\ In (sc_url c) (srcset_urls (render_srcset cs)).
+Proof.
+  exists [SCand [] (bs "a.png") ["009"; "2"; "x"]].
+  eexists. split; [reflexivity|]. split; [left; reflexivity|]. split.
+  - vm_compute. intros [H|[]]; discriminate.
+  - vm_compute. left. reflexivity.
+Qed.
+
+(* style element: a scheme-relative URL came out with the scheme http, whatever the page's was,
+   an empty path segment was turned into a scheme, and a quote inside a quoted URL was lost *)
+Lemma css_rewrite_orig_refuted :
+  css_urls_orig (bs "a{background:url(//cdn.example.net/x.png)}") = [bs "http://cdn.example.net/x.png"]
+  /\ css_urls_orig (bs "a{background:url(/x//y.png)}") = [bs "/xhttp://y.png"]
+  /\ css_urls_orig (bs "a{background:url(""/img/o'brien.png"")}") = [bs "/img/obrien.png"]
+  /\ css_urls (bs "a{background:url(//cdn.example.net/x.png)}") = [bs "//cdn.example.net/x.png"]
+  /\ css_urls (bs "a{background:url(/x//y.png)}") = [bs "/x//y.png"]
+  /\ css_urls (bs "a{background:url( ""/img/o'brien.png"" )}") = [bs "/img/o'brien.png"].
+Proof. vm_compute. repeat split; reflexivity. Qed.
